@@ -92,6 +92,22 @@ theorem srm32_spec (ta tb : Ty) (a b : Int) (hta : T3 ta) (htb : T3 tb) (ha : ta
         | (py_exec [saturating_rounding_mul32]
            try py_finish)
 
+/-- `srm32_spec` as a rewrite rule: the tag invariants in a form the discharger proves for every tag -/
+theorem srm32_rw (ta tb : Ty) (a b : Int) (hta : T3 ta) (htb : T3 tb)
+    (ha : ta = .py ∨ ta.fits a) (hb : tb = .py ∨ tb.fits b) :
+    saturating_rounding_mul32 ⟨ta, a⟩ ⟨tb, b⟩ =
+      if ¬ Ty.fits .i32 a then .error (castErr ta)
+      else if ¬ Ty.fits .i32 b then .error (castErr tb)
+      else if a = b ∧ a = -2147483648 then .ok ⟨.i32, 2147483647⟩
+      else .ok ⟨.i64, wrap .i32 (roundingMulBody (a * b) 31)⟩ := by
+  apply srm32_spec _ _ _ _ hta htb
+  · rcases ha with rfl | h
+    · trivial
+    · exact h
+  · rcases hb with rfl | h
+    · trivial
+    · exact h
+
 /-! ## `rounding_divide_by_pot` -/
 
 /-- value of `rounding_divide_by_pot(x, e)` for `e ≥ 0` -/
@@ -179,6 +195,17 @@ theorem rdbp_spec (tx : Ty) (x e : Int) (htx : T3 tx) (hx : tx.fits x) (he : tx 
         | omega
         | (py_exec [rounding_divide_by_pot]
            try py_finish)
+
+theorem rdbp_rw (tx : Ty) (x e : Int) (htx : T3 tx) (hx : tx = .py ∨ tx.fits x) (he : tx = .py ∨ e ≤ 31) :
+    rounding_divide_by_pot ⟨tx, x⟩ ⟨.py, e⟩ =
+      if ¬ Ty.fits .i32 x then .error (castErr tx)
+      else if ¬ Ty.fits .i32 e then .error .overflow
+      else if e < 0 then .error .value
+      else .ok ⟨tx, wrap .i32 (rdbpVal x e)⟩ := by
+  apply rdbp_spec _ _ _ htx _ he
+  rcases hx with rfl | h
+  · trivial
+  · exact h
 
 /-! ## the hand model's primitives in the same closed form -/
 
